@@ -269,6 +269,8 @@ def classify(case, impl):
     cfg = case.get("config") or {}
     tags = [
         f"kind={case.get('kind')}",
+        *([f"history changes {case['history']} ({case['pre'].get('how')})"] if case.get("history") else []),
+        *([f"tiny supercooling eps={case['eps']}"] if case.get("eps") else []),
         "arrangement=" + cfg.get("snowfall_parameters", {}).get("vial_arrangement", "square"),
         "pallet" if nz > 1 else "shelf",
         f"initIce={case.get('initIce', 'indirect').lower()}",
@@ -411,10 +413,92 @@ def _structured(rng, tier):
     return case
 
 
+def _history(rng, tier, force=None):
+    """the observed run is the SECOND run of one object whose settings were changed in between
+    (cooling rate only / t_tot / a hold duration / dt / T_k_0 / shelf coefficient): every
+    step must follow the program and coefficients in force for THAT run"""
+    c = _structured(rng, tier)
+    c["kind"] = "history"
+    c["N_vials"] = [rng.randint(1, 4), rng.randint(1, 4), 1]
+    if "s0" not in c["k"]:
+        c["k"] = {"int": 20, "ext": 20, "s0": rng.choice([200, 500])}
+    while stability(c) > 0.9:
+        c["dt"] = c["dt"] / 2
+    oc = c["opcond"]
+    oc["t_tot"] = min(oc["t_tot"], c["dt"] * 500)
+    if c.get("T0") is None:
+        c["T0"] = oc["start"]
+    what = force or rng.choice(["rate", "rate_fine", "rate_fine", "t_tot", "hold", "dt", "T0", "s0", "rate+dt"])
+    pre = {"how": rng.choice(["mutate", "assign"])}
+    poc = json.loads(json.dumps(oc))
+    if what in ("rate", "rate+dt"):
+        poc["rate"] = oc["rate"] * rng.choice([1.25, 0.8, 2.0, 0.5])
+    if what == "rate_fine":
+        # only the rate changes, by an amount that does not show with two decimals
+        if rng.random() < 0.3:
+            oc["rate"] = rng.choice([0.5 / 60, 0.104, 0.253])
+        r2 = round(oc["rate"], 2)
+        for _ in range(50):
+            cand = r2 + rng.uniform(-0.0045, 0.0045)
+            if cand > 0 and f"{cand:4.2f}" == f"{oc['rate']:4.2f}" and abs(cand - oc["rate"]) > 0.03 * oc["rate"]:
+                poc["rate"] = cand
+                break
+        else:
+            poc["rate"] = oc["rate"] * 0.8
+    if what == "t_tot":
+        poc["t_tot"] = oc["t_tot"] * rng.choice([0.5, 0.999, 1.5])
+    if what == "hold":
+        if not oc.get("holds"):
+            oc["holds"] = [[-5, 60.004]]
+        poc["holds"] = [[h[0], h[1] + rng.choice([0.003, 30, -0.002])] for h in oc["holds"]]
+        if oc.get("cnTemp") is not None:
+            oc["cnTemp"] = oc["holds"][-1][0]
+        poc["cnTemp"] = oc.get("cnTemp")
+    if what != "hold" and oc.get("holds") is None:
+        poc["holds"] = None
+    pre["opcond"] = poc
+    if what in ("dt", "rate+dt"):
+        pre["dt"] = c["dt"] * rng.choice([0.5, 2.0]) if stability(c) < 0.45 else c["dt"] * 0.5
+    if what == "T0":
+        pre["T0"] = c["T0"] + rng.choice([3.0, -2.0])
+    if what == "s0":
+        pre["k"] = dict(c["k"])
+        pre["k"]["s0"] = c["k"]["s0"] * rng.choice([0.5, 0.9])
+    if "T0" not in pre:
+        pre["T0"] = c["T0"]
+    c["pre"] = pre
+    c["history"] = what
+    return c
+
+
+def _tiny(rng, tier):
+    """nucleation at a tiny supercooling: a hold a hair below T_eq_l with controlled nucleation
+    at its end; the ice fraction formed is 1e-5 … 1e-11 and the vial must from then on take the
+    solidification step (classification by sigma == 0 exactly)"""
+    eps = rng.choice([1e-3, 1e-6, 5e-7, 1e-9, 2e-7])
+    cfg = None
+    if rng.random() < 0.4:
+        cfg = {"solution": {"solid_fraction": rng.choice([0.1, 0.2])}}
+    ph = fu.physical(cfg)
+    hold = ph["T_eq_l"] - eps
+    dt = rng.choice([1.0, 2.0])
+    n = rng.choice([[1, 1, 1], [2, 1, 1], [2, 2, 1]])
+    oc = dict(t_tot=dt * rng.choice([700, 900]), start=hold + rng.choice([0.5, 1.0]), stop=-40.0,
+              rate=rng.choice([0.1, 0.05]), holds=[[hold, 1000.0 if dt == 1.0 else 1200.0]], cnTemp=hold)
+    oc["t_tot"] = oc["holds"][0][1] + 200 * dt
+    return dict(kind="tiny-supercooling", N_vials=n, k={"int": rng.choice([0, 20]), "ext": 0, "s0": 1000},
+                dt=dt, seed=rng.randint(0, 10**6), seed_v=rng.randint(0, 10**6), opcond=oc, T0=None, config=cfg,
+                initIce=rng.choice(["indirect", "direct", "Direct"]), threshold=0.9, eps=eps)
+
+
 def cases(rng, tier):
-    n = 64 if tier == "quick" else 1500
+    n, nh, nt = (48, 12, 6) if tier == "quick" else (1300, 150, 50)
     for _ in range(n):
         yield _structured(rng, tier)
+    for j in range(nh):
+        yield _history(rng, tier, force="rate_fine" if j < 4 else None)
+    for _ in range(nt):
+        yield _tiny(rng, tier)
 
 
 def widen(rng, tier):
